@@ -1,5 +1,5 @@
 """C03 — type references, or, allOf and additionalProperties compose as set operations."""
-import json, copy
+import json, copy, re
 import vcommon as vc
 import jsight as J
 
@@ -79,6 +79,9 @@ def members_with_inherited(env, t):
 
 
 # ---- denotational semantics ----
+AP_KINDS = {"string": "s", "integer": "i", "boolean": "b", "null": "n", "object": "o", "array": "a"}
+
+
 def accepts(env, node, d, fuel=60):
     if fuel <= 0:
         return False
@@ -100,6 +103,14 @@ def accepts(env, node, d, fuel=60):
         if d[0] == "n" and node[2]:
             return True
         return any(accepts(env, env[n], d, fuel - 1) for n in node[1])
+    if k == "strl":                                  # string with length bounds (bytes of the decoded text; ASCII here)
+        return d[0] == "s" and node[1] <= len(json.loads(d[1])) <= node[2]
+    if k == "strre":
+        return d[0] == "s" and re.search(node[1], json.loads(d[1])) is not None
+    if k == "tref":                                  # <example> // {type: "@T", nullable}
+        return (d[0] == "n" and node[2]) or accepts(env, env[node[1]], d, fuel - 1)
+    if k == "orform":                                # <example> // {or: [alt...], nullable}
+        return (d[0] == "n" and node[2]) or any(accepts(env, alt_node(a), d, fuel - 1) for a in node[1])
     if k == "arr":
         if d[0] != "a":
             return False
@@ -112,10 +123,13 @@ def accepts(env, node, d, fuel=60):
         ms = members_with_inherited(env, node)
         keys = [kk for kk, _ in d[1]]
         for kk, opt, _ in ms:
-            if not opt and kk not in keys:
+            if not opt and not kk.startswith("@") and kk not in keys:
                 return False
+        shortcuts = [c for c in ms if c[0].startswith("@")]
         for kk, x in d[1]:
-            m = [c for c in ms if c[0] == kk]
+            m = [c for c in ms if c[0] == kk and not c[0].startswith("@")]
+            if not m:                                # key shortcut @K: v admits any key accepted by the string type @K
+                m = [c for c in shortcuts if accepts(env, env[c[0]], ("s", json.dumps(kk)), fuel - 1)][:1]
             if m:
                 if not accepts(env, m[0][2], x, fuel - 1):
                     return False
@@ -125,16 +139,36 @@ def accepts(env, node, d, fuel=60):
                     return False
                 if a == "any":
                     continue
-                if a == "string":
-                    if x[0] != "s":
-                        return False
-                elif a == "integer":
-                    if x[0] != "i":
+                if a in AP_KINDS:
+                    if x[0] != AP_KINDS[a]:
                         return False
                 elif not accepts(env, env[a], x, fuel - 1):
                     return False
         return True
     raise ValueError(k)
+
+
+def alt_node(a):
+    """an or-alternative as a node: "@T" -> reference; ("int", lo, hi) / ("strl", lo, hi) inline rule-sets; ("t", "@T") = {type: "@T"}"""
+    if isinstance(a, str):
+        return ("ref", [a], False)
+    if a[0] == "t":
+        return ("ref", [a[1]], False)
+    if a[0] == "int":
+        return ("int", a[1], a[2], False)
+    return a
+
+
+def print_alt(a):
+    if isinstance(a, str):
+        return json.dumps(a)
+    if a[0] == "t":
+        return '{type: "%s"}' % a[1]
+    if a[0] == "int":
+        return "{%s}" % ", ".join(['type: "integer"'] + (["min: %d" % a[1]] if a[1] is not None else []) + (["max: %d" % a[2]] if a[2] is not None else []))
+    if a[0] == "strl":
+        return '{type: "string", minLength: %d, maxLength: %d}' % (a[1], a[2])
+    raise ValueError(a)
 
 
 def J_value(tok):
@@ -161,6 +195,14 @@ def print_node(env, node, indent=0, key=None, comma=False, optional=False):
         return head + "null" + c + J.annot(rules)
     if k == "ref":
         return head + " | ".join(node[1]) + c + J.annot(rules + (["nullable: true"] if node[2] else []))
+    if k == "strl":
+        return head + json.dumps("x" * node[1]) + c + J.annot(rules + ["minLength: %d" % node[1], "maxLength: %d" % node[2]])
+    if k == "strre":
+        return head + json.dumps(node[2]) + c + J.annot(rules + ["regex: %s" % json.dumps(node[1])])
+    if k == "tref":
+        return head + node[3] + c + J.annot(rules + ['type: "%s"' % node[1]] + (["nullable: true"] if node[2] else []))
+    if k == "orform":
+        return head + node[3] + c + J.annot(rules + ["or: [%s]" % ", ".join(print_alt(a) for a in node[1])] + (["nullable: true"] if node[2] else []))
     if k == "arr":
         lines = [head + "[" + J.annot(rules)]
         for i, x in enumerate(node[1]):
@@ -175,7 +217,10 @@ def print_node(env, node, indent=0, key=None, comma=False, optional=False):
             rs.append("allOf: %s" % (json.dumps(node[3][0]) if len(node[3]) == 1 else json.dumps(node[3])))
         lines = [head + "{" + J.annot(rs)]
         for i, (kk, opt, x) in enumerate(node[1]):
-            lines.append(print_node(env, x, indent + 1, kk, i < len(node[1]) - 1, opt))
+            t = print_node(env, x, indent + 1, kk, i < len(node[1]) - 1, opt)
+            if kk.startswith("@"):
+                t = t.replace(json.dumps(kk) + ": ", kk + ": ", 1)      # key shortcut: the type name stands bare in key position
+            lines.append(t)
         lines.append(pad + "}" + c)
         return "\n".join(lines)
     raise ValueError(k)
@@ -232,6 +277,64 @@ def inhabitant(rng, env, node, fuel=8):
                 ms.append(("extra", extra))
         rng.shuffle(ms)
         return ("o", ms)
+
+
+SCALAR_PROBES = [("i", "-1"), ("i", "0"), ("i", "3"), ("i", "5"), ("i", "9"), ("i", "10"), ("i", "11"), ("i", "99"), ("s", '""'), ("s", '"x"'), ("s", '"xx"'), ("s", '"xxx"'), ("s", '"xxxx"'),
+                 ("s", '"abc"'), ("s", '"ab1"'), ("b", "true"), ("n", "null"), ("o", []), ("a", [])]
+
+
+def rule_form_cases(rng, n):
+    """the reference forms of the statement other than the bare shortcut: {type: "@T"}, {or: [...]} with type names and inline rule-sets, each with and
+    without nullable (null is the ONLY extra value nullable admits), and key shortcuts @K: v"""
+    out = []
+    for _ in range(n):
+        lo = rng.choice([0, 3, 5]); hi = rng.choice([5, 9, 10])
+        l1 = rng.choice([0, 1, 2]); l2 = l1 + rng.choice([0, 1, 2])
+        env = {"@I": ("int", lo, hi, False), "@S": ("strl", l1, l2), "@R": ("strre", "^[a-c]+$", "abc"), "@B": ("bool",),
+               "@U": ("ref", ["@I", "@S"], False), "@O": ("obj", [("id", False, ("int", None, None, False))], None, [])}
+        names = ["@I", "@S", "@R", "@B", "@U", "@O"]
+        ex = {"@I": str(lo), "@S": json.dumps("x" * l1), "@R": '"abc"', "@B": "true", "@U": str(lo)}
+        form = rng.choice(["tref", "tref", "or-names", "or-sets", "or-mixed", "kshort", "kshort"])
+        nullable = rng.random() < 0.5
+        if form == "tref":
+            t = rng.choice(["@I", "@S", "@R", "@B", "@U"])
+            node = ("tref", t, nullable, ex[t])
+        elif form == "or-names":
+            ts = rng.sample(["@I", "@S", "@R", "@B"], 2)
+            node = ("orform", ts, nullable, ex[ts[0]])
+        elif form == "or-sets":
+            a1 = ("int", rng.choice([None, 3, 10]), rng.choice([None, 10, 99]))
+            a2 = ("strl", l1, l2)
+            alts = [a1, a2]
+            rng.shuffle(alts)
+            node = ("orform", alts, nullable, str(a1[1] if a1[1] is not None else 5))
+        elif form == "or-mixed":
+            alts = [("t", "@I"), ("strl", l1, l2)] if rng.random() < 0.5 else ["@S", ("int", 10, 99)]
+            node = ("orform", alts, nullable, ex["@I"] if alts[0] == ("t", "@I") else ex["@S"])
+        else:
+            node = None
+        if node is not None:
+            where = rng.choice(["root", "prop", "item"])
+            root = node if where == "root" else (("obj", [("p", rng.random() < 0.3, node), ("q", True, ("bool",))], None, []) if where == "prop" else ("arr", [node]))
+            docs = []
+            for d in SCALAR_PROBES:
+                docs.append(d if where == "root" else (("o", [("p", d)]) if where == "prop" else ("a", [d, ("i", str(lo))] if rng.random() < 0.3 else [d])))
+        else:
+            K = rng.choice(["@R", "@S"])
+            v = rng.choice([("int", None, None, False), ("ref", ["@I"], False), ("strl", 1, 2)])
+            addp = rng.choice([None, None, False, "boolean"])
+            root = ("obj", [("a", rng.random() < 0.5, ("int", None, None, False)), (K, rng.random() < 0.5, v)], addp, [])
+            keys = ["abc", "b", "cab", "abd", "x", "xx", "xxx", "", "a1", "zz"]
+            vals = [("i", "1"), ("i", str(lo)), ("i", "-7"), ("s", '"x"'), ("s", '"xxx"'), ("b", "true"), ("n", "null")]
+            docs = []
+            for _ in range(12):
+                ms = ([("a", ("i", "1"))] if rng.random() < 0.8 else []) + [(k, rng.choice(vals)) for k in rng.sample(keys, rng.choice([0, 1, 1, 2, 3]))]
+                rng.shuffle(ms)
+                if not root[1][1][1] and not any(k != "a" and accepts(env, env[K], ("s", json.dumps(k))) for k, _ in ms):
+                    continue        # a required shortcut entry with no matching key: the statement does not say; not judged
+                docs.append(("o", ms))
+        out.append((names, env, root, docs))
+    return out
 
 
 def run(ctx):
@@ -297,6 +400,43 @@ def run(ctx):
         docs.append(("o", [("combined", ("o", [("b", ("i", "1")), ("c", ("s", '"x"'))] + [(k, ("b", "true")) for k, _, _ in own])), ("plain", ("o", [("b", ("i", "2"))])),
                            ("u", ("n", "null")), ("arr", ("a", [("n", "null"), ("i", "3")]))]))
         cases.append((names, env, root, docs))
+    # additionalProperties: several unnamed keys in one object, valid and invalid values in every order (each unnamed key is decided on its own)
+    for _ in range(300 if quick else 5000):
+        env = {"@Id": ("obj", [("id", False, ("int", None, None, False))], None, []), "@N": ("int", 0, 9, False), "@S": ("str", False),
+               "@U": ("ref", ["@N", "@Id"], False), "@L": ("arr", [("ref", ["@N"], False)])}
+        names = ["@Id", "@N", "@S", "@U", "@L"]
+        a = rng.choice(["any", "string", "integer", "boolean", "null", "object", "array", "@Id", "@N", "@U", "@L", "@S"])
+        inner = ("obj", [("a", rng.random() < 0.5, ("int", None, None, False))], a, [])
+        root = rng.choice([inner, ("obj", [("w", False, inner)], None, []), ("arr", [inner])])
+        pool = [("i", "1"), ("i", "77"), ("s", '"x"'), ("b", "true"), ("n", "null"), ("o", []), ("o", [("id", ("i", "7"))]), ("o", [("k", ("i", "1"))]), ("a", []), ("a", [("i", "1"), ("i", "2")]),
+                ("a", [("s", '"q"')]), ("o", [("id", ("s", '"no"'))])]
+        docs = []
+        for _ in range(6):
+            ms = [("a", ("i", "1"))] if rng.random() < 0.8 else []
+            ms += [(k, rng.choice(pool)) for k in rng.sample(["x", "y", "z", "p", "q"], rng.choice([1, 2, 2, 3, 4]))]
+            if rng.random() < 0.5:
+                rng.shuffle(ms)
+            o = ("o", ms)
+            docs.append(o if root is inner else (("o", [("w", o)]) if root[0] == "obj" else ("a", [o, o] if rng.random() < 0.3 else [o])))
+        cases.append((names, env, root, docs))
+    cases += rule_form_cases(rng, 300 if quick else 6000)
+    # corpus: minimised replays of repaired defects run first (a regression is an ordinary violation)
+    import os
+    cdir = os.path.join(vc.ROOT, "corpus", "C03")
+    corpus = []
+    for f in sorted(os.listdir(cdir)) if os.path.isdir(cdir) else []:
+        if f.endswith(".json"):
+            corpus += json.load(open(os.path.join(cdir, f)))
+    if corpus:
+        couts = vc.impl(["schema"], [json.dumps({"schema": c["schema"], "types": c.get("types", []), "ops": [["check"], ["validate", c["document"]]]}) for c in corpus])
+        for c, o in zip(corpus, couts):
+            r = json.loads(o)
+            ctx.evaluations += 1
+            got = "accept" if (r[0] == "ok" and r[1] == "ok") else "reject"
+            if (r[0] != "ok" or got != c["expect"]) and len(ctx.violations) < 40:
+                ctx.report("corpus case: Check %s, Validate(%s) %s, expected %s; schema %r types %r" % (r[0], c["document"], r[1] if len(r) > 1 else "-", c["expect"], c["schema"][:100], c.get("types")),
+                           "c03corpus:" + c["schema"] + "|" + c["document"], dict(c, implementation=r), case=c)
+    ctx.extra["corpus_cases"] = len(corpus)
     lines = []
     for names, env, root, docs in cases:
         lines.append(json.dumps({"schema": print_node(env, root), "types": [[nm, print_node(env, env[nm])] for nm in names],
